@@ -2,9 +2,11 @@ package pshake
 
 import (
 	"bytes"
+	"encoding/json"
 	"fmt"
 	"sort"
 	"strings"
+	"time"
 
 	conf "github.com/alibaba/RedisShake/redis-shake/configure"
 	"github.com/alibaba/RedisShake/redis-shake/filter"
@@ -72,7 +74,7 @@ func eqArgv(a, b [][]byte) bool {
 func c13(c *wk.Ctx) {
 	r := c.R
 	r.Rule = "every command of filter.RedisCommands x every arity up to a key bound x all 2^n pass/fail patterns x {whitelist, blacklist}; pass/fail controlled by key prefix only; " +
-		"expected argv = literal statement over an independently typed Redis key-spec table. distinct = (command, arity, pattern, list kind)"
+		"expected argv = literal statement over an independently typed Redis key-spec table. Stream stage: random draws of the same cases (<= 3 keys) in any letter case, interleaved with SELECT/PING/PUBLISH/commands outside the table (each also right after a dropped command), pushed through the real incremental parser and sender; the sequence of (database, command, argv) executed by the model target must equal the reference pipeline's. distinct = (command, arity, pattern, list kind) + (stream config, sender.count)"
 	r.Exhaustive = true
 	bound := c.N(4, 6)
 	var cmds []string
@@ -202,6 +204,21 @@ func c13(c *wk.Ctx) {
 		judge("nofilter", none, cmd, args, "any")
 	}
 	conf.Options = conf.Configuration{}
+	// ---- stream stage (second observation point of the statement): child processes, real parser + sender
+	onDeath := func(d wk.Death) {
+		if d.Result.TimedOut {
+			r.Inconcl("C13 stream child watchdog: " + wk.Tail(d.Result.Stderr, 300))
+			return
+		}
+		r.Violationf("C13|stream|outcome=process-aborted", json.RawMessage(d.Desc), "incremental parser/sender ended the process (exit %d): %s", d.Result.Exit, firstPanicLine(d.Result.Stderr))
+	}
+	ns := c.N(18, 360)
+	parts := 6
+	wk.Parallel(parts, 6, func(p int) {
+		wk.RunBatch(c, "c13stream", ns*p/parts, ns*(p+1)/parts, nil, 20*time.Minute, onDeath)
+	})
+	r.Floor("stream_stage_streams", 15)
+	r.Floor("stream_stage_forwarded_commands", 1500)
 	r.Floor("commands_in_tool_table", 60)
 	r.Assume("reference key-spec table typed from the Redis command table (DESIGN.md §5/C13); values/options never carry a listed prefix")
 }
